@@ -380,6 +380,7 @@ pub struct Agg {
     pub aborts: u64,
     pub per_stream: BTreeMap<String, u64>,
     pub infra_errors: Vec<String>,
+    pub timeout_cases: Vec<String>,
 }
 
 fn merge(agg: &mut Agg, v: &Value) {
@@ -550,6 +551,9 @@ pub fn run_check(prop: &dyn Prop, tier: Tier, extra: impl FnOnce(&mut Agg, &mut 
                         if code == Some(97) {
                             a.timeouts += 1;
                             *a.skips.entry("watchdog-timeout".into()).or_default() += 1;
+                            if a.timeout_cases.len() < 20 {
+                                a.timeout_cases.push(format!("{sname}:{ji}"));
+                            }
                         } else {
                             a.aborts += 1;
                             use std::os::unix::process::ExitStatusExt;
@@ -652,6 +656,7 @@ pub fn run_check(prop: &dyn Prop, tier: Tier, extra: impl FnOnce(&mut Agg, &mut 
             "excluded_by_known_finding": agg.known,
             "known_findings_reproduced": known_lines,
             "inconclusive_watchdog": inconclusive,
+            "watchdog_cases": agg.timeout_cases,
             "worker_aborts": agg.aborts,
             "infra_errors": agg.infra_errors,
         },
